@@ -144,7 +144,9 @@ func (ri *refIndex) score(d int, terms []string, boosts map[string]float64) (flo
 	return total, hit
 }
 
-var hostileWords = []string{"alpha", "beta", "gamma", "delta", "tar", "x", "the", "über", "naïve", "日本語", "c++", "foo-bar", "a.b", "ls", "42", "ΑΒΓ", "é", "ﬁx"}
+var hostileWords = []string{"alpha", "beta", "gamma", "delta", "tar", "x", "the", "über", "naïve", "日本語", "c++", "foo-bar", "a.b", "ls", "42", "ΑΒΓ", "é", "ﬁx",
+	// capitals outside ASCII whose lower case is an ASCII letter (KELVIN SIGN, dotted capital I), in words without any ASCII capital
+	"\u212Aelvin", "\u0130nfo", "dis\u212A"}
 
 func randomCommands(r interface {
 	Intn(int) int
